@@ -53,8 +53,8 @@ def one(k, rnd, rundir):
     t2.start()
     time.sleep(0.15)                 # t2 is now waiting for the import that t1 has in progress
     builtins._verif_gate.set()
-    t1.join(6)
-    t2.join(6)
+    t1.join(40)
+    t2.join(40)
     sys.modules.pop(name, None)
     return {"entered": bool(entered), "t1": res.get("t1", "no-outcome"), "t2": res.get("t2", "no-outcome")}
 
